@@ -32,19 +32,19 @@ MixQuick == { Shape(2, 2, <<2, 2>>, 2, TRUE, 0, 2),
               Shape(2, 2, <<2, 3>>, 3, FALSE, 1, 2),
               Shape(3, 2, <<3, 2>>, 3, FALSE, 1, 1),
               Shape(2, 3, <<2, 2, 2>>, 2, FALSE, 1, 1),
-              Shape(3, 3, <<2, 2, 2>>, 2, FALSE, 1, 1),
               Shape(4, 2, <<2, 2>>, 2, FALSE, 1, 1),
               Shape(1, 3, <<2, 3, 2>>, 3, FALSE, 1, 2) }
 MixThorough == MixQuick \cup { Shape(2, 2, <<2, 3>>, 3, TRUE, 0, 2),
-                               Shape(3, 3, <<2, 3, 2>>, 3, FALSE, 1, 1),
+                               Shape(3, 3, <<2, 2, 2>>, 2, FALSE, 1, 1),
+                               Shape(2, 3, <<2, 3, 2>>, 3, FALSE, 1, 2),
                                Shape(4, 3, <<2, 2, 2>>, 2, FALSE, 1, 1),
                                Shape(2, 4, <<2, 2, 2, 2>>, 2, FALSE, 1, 1) }
 StructQuick == { Shape(2, 2, <<2, 3>>, 3, FALSE, 1, 1),
                  Shape(3, 2, <<2, 2>>, 2, FALSE, 1, 1),
                  Shape(2, 3, <<2, 2, 2>>, 2, FALSE, 1, 1) }
 StructThorough == StructQuick \cup { Shape(3, 3, <<2, 2, 2>>, 2, FALSE, 1, 1),
-                                     Shape(4, 2, <<2, 2>>, 2, FALSE, 1, 1),
-                                     Shape(3, 2, <<2, 3>>, 3, FALSE, 1, 1) }
+                                     Shape(2, 3, <<2, 3, 2>>, 3, FALSE, 1, 1),
+                                     Shape(4, 1, <<3>>, 3, FALSE, 1, 1) }
 Tiny == { Shape(2, 2, <<2, 2>>, 2, TRUE, 0, 2), Shape(2, 2, <<2, 3>>, 3, FALSE, 1, 1) }
 
 VARIABLES sh,        \* shape (constant along a behaviour)
@@ -91,9 +91,12 @@ InitMixture ==
   /\ InitCommon
   /\ idx = [h \in 1..sh.P |-> h] /\ lo = 0 /\ hi = sh.N
 
-NextMixture ==
-  \/ IncG /\ UNCHANGED <<sh, rds, idx, lo, hi, phase, col, allReads>>
-  \/ (IncCell \/ IncCount \/ AddRead) /\ UNCHANGED <<sh, G, idx, lo, hi, phase, col, work, allReads>>
+MixKeepG   == UNCHANGED <<sh, G, idx, lo, hi, phase, col, work, allReads>>
+MIncG      == IncG /\ UNCHANGED <<sh, rds, idx, lo, hi, phase, col, allReads>>
+MIncCell   == IncCell /\ MixKeepG
+MIncCount  == IncCount /\ MixKeepG
+MAddRead   == AddRead /\ MixKeepG
+NextMixture == MIncG \/ MIncCell \/ MIncCount \/ MAddRead
 SpecMixture == InitMixture /\ [][NextMixture]_vars
 
 (* ---- SpecStructural ------------------------------------------------------- *)
@@ -115,11 +118,14 @@ Column == /\ phase = "apply" /\ col < hi
           /\ phase' = phase
 Finish == phase = "apply" /\ col = hi /\ phase' = "done" /\ UNCHANGED <<col, work>>
 
-NextStructural ==
-  \/ phase = "inst" /\ IncG /\ UNCHANGED <<sh, rds, idx, lo, hi, phase, col, allReads>>
-  \/ phase = "inst" /\ IncIdx /\ UNCHANGED <<sh, G, rds, lo, hi, phase, col, work, allReads>>
-  \/ phase = "inst" /\ (IncHi \/ IncLo) /\ UNCHANGED <<sh, G, rds, idx, phase, col, work, allReads>>
-  \/ (Begin \/ Column \/ Finish) /\ UNCHANGED <<sh, G, rds, idx, lo, hi, allReads>>
+SIncG   == phase = "inst" /\ IncG /\ UNCHANGED <<sh, rds, idx, lo, hi, phase, col, allReads>>
+SIncIdx == phase = "inst" /\ IncIdx /\ UNCHANGED <<sh, G, rds, lo, hi, phase, col, work, allReads>>
+SIncHi  == phase = "inst" /\ IncHi /\ UNCHANGED <<sh, G, rds, idx, phase, col, work, allReads>>
+SIncLo  == phase = "inst" /\ IncLo /\ UNCHANGED <<sh, G, rds, idx, phase, col, work, allReads>>
+SBegin  == Begin /\ UNCHANGED <<sh, G, rds, idx, lo, hi, allReads>>
+SColumn == Column /\ UNCHANGED <<sh, G, rds, idx, lo, hi, allReads>>
+SFinish == Finish /\ UNCHANGED <<sh, G, rds, idx, lo, hi, allReads>>
+NextStructural == SIncG \/ SIncIdx \/ SIncHi \/ SIncLo \/ SBegin \/ SColumn \/ SFinish
 SpecStructural == InitStructural /\ [][NextStructural]_vars
 
 (* ---- invariants: mixture semantics ---------------------------------------- *)
